@@ -174,6 +174,43 @@ theorem C17_group_pull_merge (n : Nat) (vals started : List Nat) :
     · simp [hS]
     · rw [if_neg (by rw [hnil]; exact hS), if_neg hS]
 
+/-- **C17_group_pull_loop.** The subscription loop of `PullX`, for every reducer, member count and
+sequence of member messages (any member, any number of changes per message, in any order):
+* no value is forwarded twice in a row, and the first value forwarded is not the empty change;
+* `memberChanges` holds each member's latest change (the last change of its last non-empty message);
+* once any non-empty message has been handled, the last value forwarded is the reduction of the
+  members' latest changes (nothing forwarded yet: that reduction is still the empty change) - the
+  subscriber's view converges to the group's value. -/
+theorem C17_group_pull_loop [DecidableEq V] (reduce : List (Option V) → Option V) (n : Nat)
+    (evs : List (Nat × List V)) :
+    let st := pullRun reduce n evs
+    NoStutter st.sent
+    ∧ (∀ x, st.sent.head? = some x → x ≠ none)
+    ∧ st.slots = latest n evs
+    ∧ ((∃ ev ∈ evs, ev.2 ≠ []) → st.sent.getLast?.getD none = reduce (latest n evs)) := by
+  intro st
+  have hinv : PullInv st := pullInv_fold reduce evs (pullInit n) ⟨rfl, trivial, by intro x hx; cases hx⟩
+  have hslots : st.slots = latest n evs := pullFold_slots reduce evs (pullInit n)
+  refine ⟨hinv.noStutter, hinv.headSome, hslots, ?_⟩
+  intro h
+  rw [hinv.lastSent, pullRun_current reduce n evs h, hslots]
+
+/-- for the two traits: the value a subscriber of a light / onoff Group holds after any sequence of
+member messages is the mean of the latest levels / ON-wins of the latest states of the members heard
+from -/
+theorem C17_group_pull_converges (n : Nat) :
+    (∀ evs : List (Nat × List Rat), (∃ ev ∈ evs, ev.2 ≠ []) →
+      (pullRun lightReduceChanges n evs).sent.getLast?.getD none
+        = (if present (latest n evs) = [] then none else some (mean (present (latest n evs)))))
+    ∧ (∀ evs : List (Nat × List Nat), (∃ ev ∈ evs, ev.2 ≠ []) → (∀ v, v ∈ present (latest n evs) → v ≤ 2) →
+      (pullRun onoffReduceChanges n evs).sent.getLast?.getD none
+        = (if present (latest n evs) = [] then none else some (onoffSpec (present (latest n evs))))) := by
+  constructor
+  · intro evs h
+    rw [(C17_group_pull_loop lightReduceChanges n evs).2.2.2 h, (C17_light_reduce _).2]
+  · intro evs h hb
+    rw [(C17_group_pull_loop onoffReduceChanges n evs).2.2.2 h, (C17_onoff_reduce _ hb).2]
+
 /-! ## Non-vacuity -/
 
 /-- Any over three lights, member 0 fails: the mean of the two that answered (not weighted by slot). -/
@@ -189,6 +226,11 @@ example : lightGet (execute .any 3 (arrivals [⟨none, some 7⟩, ⟨some 2, non
 
 /-- All over two onoff members, one fails: the call fails with that member's error and has no value. -/
 example : onoffGet (execute .all 2 (arrivals [⟨some 2, none⟩, ⟨none, some 9⟩] [1, 0])) = (none, some (.member 9)) := by decide
+
+/-- the loop on a concrete run: member 1 OFF, member 0 ON (group ON), member 1 repeats OFF (no stutter:
+nothing forwarded), an empty message, member 0 goes OFF via ON (only the last change counts) -/
+example : (pullRun onoffReduceChanges 2 [(1, [2]), (0, [1]), (1, [2]), (0, []), (0, [1, 2])]).sent
+    = [some 2, some 1, some 2] := by decide
 
 /-- the hypothesis of `C17_onoff_reduce` holds for the states of the enum -/
 example : ∀ v, v ∈ present [some 1, none, some 2, some 0] → v ≤ 2 := by decide
